@@ -72,8 +72,8 @@ theorem recognize_type (k : Kind) (order mult : Nat) (hv : Bool) (counts : List 
     ∃ p, recognize (headerBytes { fixed := { order := order, multBits := mult, modelType := k.typeNum, hasVocab := hv,
                                               searchVersion := k.searchVersion }, counts := counts } ++ rest) = .binary p
       ∧ Kind.ofNum p.fixed.modelType = some k ∧ p.fixed.modelType < numModelNames
-      ∧ p.fixed.searchVersion = k.searchVersion ∧ p.counts = counts ∧ p.fixed.hasVocab = hv := by
-  refine ⟨_, header_roundtrip _ ⟨⟨ho, hm, ?_, ?_⟩, hl, hc, h1⟩ rest, typeNum_ofNum k, typeNum_lt k, rfl, rfl, rfl⟩
+      ∧ p.fixed.searchVersion = k.searchVersion ∧ p.counts = counts ∧ p.fixed.hasVocab = hv ∧ p.fixed.multBits = mult := by
+  refine ⟨_, header_roundtrip _ ⟨⟨ho, hm, ?_, ?_⟩, hl, hc, h1⟩ rest, typeNum_ofNum k, typeNum_lt k, rfl, rfl, rfl, rfl⟩
   · have := typeNum_lt k; simp only [numModelNames] at this; show k.typeNum < 2^32; omega
   · show k.searchVersion < 2^32
     cases k with
@@ -291,5 +291,46 @@ theorem quant_lossy_when_count_exceeds_bins :
     decode (makeBins ops vals 2) (encode ops (makeBins ops vals 2) 0 (some (-75))) = some (-50) := by decide
 
 end QuantExample
+
+/-- the `uint8_t` sums of `BaseSize`/`BaseInit`/`BitPackedMiddle::Size` never wrap for 64-bit counts: the `% 256` of the model
+are identities on everything the code can be given -/
+theorem no_uint8_wrap (array : Bool) (quantBits maxOffset maxVocab maxNext bhikshaBits : Nat)
+    (hv : maxVocab < 2^64) (hn : maxNext < 2^64) (hq : quantBits ≤ 63) :
+    let inl := inlineBits array maxOffset maxNext bhikshaBits
+    inl ≤ 64 ∧ (quantBits + inl) % 256 = quantBits + inl
+      ∧ totalBits maxVocab ((quantBits + inl) % 256) = requiredBits maxVocab + quantBits + inl := by
+  intro inl
+  have h1 := KV.C20.required_bits_le_64 maxVocab hv
+  have h2 := KV.C20.required_bits_le_64 maxNext hn
+  have hi : inl ≤ 64 := by
+    simp only [inl, inlineBits]
+    split <;> omega
+  have e : (quantBits + inl) % 256 = quantBits + inl := Nat.mod_eq_of_lt (by omega)
+  refine ⟨hi, e, ?_⟩
+  rw [e]; unfold totalBits
+  rw [Nat.mod_eq_of_lt (by omega)]; omega
+
+/-- **file_roundtrip_layout**: from the bytes of a finished file alone (header as written by `FinishFile`, anything after it),
+the loader recognises the writer's model class and computes exactly the writer's offsets for the vocabulary lookup, the
+search structure and the vocabulary strings. -/
+theorem file_roundtrip_layout (k : Kind) (cfg : Config) (arpa fixed : List Nat) (sawUnk iv : Bool) (sl : Nat) (rest : List Nat)
+    (hlen : fixed.length = arpa.length) (ho : arpa.length < 256) (hm : cfg.multBits < 2^32) (h1 : floatLtOne cfg.multBits = false)
+    (hc : ∀ c ∈ storedCounts k arpa fixed, c < 2^64)
+    (h0 : k.isTrie = true → cnt fixed 0 = cnt arpa 0 + (if sawUnk then 0 else 1)) :
+    let w := writeLayout k cfg arpa fixed sawUnk iv sl
+    ∃ p, recognize (headerBytes { fixed := { order := arpa.length, multBits := cfg.multBits, modelType := k.typeNum, hasVocab := iv,
+                                              searchVersion := k.searchVersion }, counts := w.storedCounts } ++ rest) = .binary p
+      ∧ Kind.ofNum p.fixed.modelType = some k ∧ p.fixed.hasVocab = iv
+      ∧ (let l := loadLayout k { cfg with multBits := p.fixed.multBits } p.counts
+         l.header = w.header ∧ l.vocabSize = w.vocab + w.pad ∧ l.search = w.search ∧ l.mapped = w.strings) := by
+  intro w
+  have hsl : (storedCounts k arpa fixed).length = arpa.length := by
+    unfold storedCounts; split <;> simp [hlen]
+  obtain ⟨p, hp, hk, _, _, hcounts, hhv, hpm⟩ := recognize_type k arpa.length cfg.multBits iv (storedCounts k arpa fixed) rest ho hm hsl hc h1
+  refine ⟨p, hp, hk, hhv, ?_⟩
+  have hcfg : ({ cfg with multBits := p.fixed.multBits } : Config) = cfg := by rw [hpm]
+  rw [hcfg, hcounts]
+  exact load_layout_eq_write_layout k cfg arpa fixed sawUnk iv sl hlen h0
+
 
 end KV.C04
